@@ -133,6 +133,10 @@ class OrderedPartition:
                 # move to next target group of the OrderedPartition if all elements have been checked
                 if nb_elements_to_see == 0:
                     id_partition += 1
+            # all the buckets of the consensus have been seen and some elements of the target group are still missing:
+            # the consensus does not contain them, it cannot be consistent with the OrderedPartition
+            if nb_elements_to_see > 0:
+                flag = False
         return flag
 
     def __str__(self) -> str:
